@@ -6,6 +6,7 @@ package harness
 import (
 	"context"
 	"fmt"
+	"net/http"
 	"sort"
 	"strings"
 	"sync"
@@ -22,6 +23,9 @@ type c05Case struct {
 	Carrier string
 	Kind    string
 	Steps   []Step
+	// BadReplyHeader: a middleware in front of the HTTP server adds a "-bin" reply header that is
+	// not valid base64 (the client cannot decode the reply metadata)
+	BadReplyHeader bool `json:",omitempty"`
 }
 
 type schedResult struct {
@@ -48,7 +52,7 @@ var c05Serial sync.Mutex // the goroutine census is process-wide
 var schedBound = time.Duration(envInt("VERIF_SCHED_BOUND_MS", 10000)) * time.Millisecond
 
 // runSchedule executes the schedule and the completion phases; see DESIGN 2.5.
-func runSchedule(carrier, kind string, steps []Step, postOps bool) *schedResult {
+func runSchedule(carrier, kind string, steps []Step, postOps bool, copt ...carrierOpts) *schedResult {
 	res := &schedResult{}
 	r := &rpcRun{kind: kind, carrier: carrier, actors: map[string]*actor{"cs": newActor("cs"), "cs2": newActor("cs2"), "cr": newActor("cr"), "h": newActor("h"), "h2": newActor("h2")}, hDone: make(chan struct{})}
 	hasReturn := false
@@ -75,7 +79,11 @@ func runSchedule(carrier, kind string, steps []Step, postOps bool) *schedResult 
 		return statusOfCode(code)
 	}}
 	before, _ := libraryGoroutines()
-	car := newCarrier(carrier, newServiceDesc(), svc, carrierOpts{})
+	var co carrierOpts
+	if len(copt) > 0 {
+		co = copt[0]
+	}
+	car := newCarrier(carrier, newServiceDesc(), svc, co)
 	r.ctx, r.cancel = context.WithCancel(context.Background())
 	cs, err := car.Conn.NewStream(r.ctx, streamDescOf(kind), methodOf(kind))
 	if err != nil {
@@ -155,9 +163,14 @@ func runSchedule(carrier, kind string, steps []Step, postOps bool) *schedResult 
 		// phase A2: the handler has returned. Everything the client has pending or still issues
 		// must come back by itself - in particular without the client closing its send side.
 		res.HandlerRetEarly = true
-		r.actors["cr"].releaseAll(drain...)
+		// A2a: first the senders alone, nobody receiving: sends must come back (nil or io.EOF)
+		// whatever the receiver does, e.g. a client that sends everything before it reads.
 		r.actors["cs"].releaseAll()
 		r.actors["cs2"].releaseAll()
+		if !isHTTP(carrier) && !waitActorsIdle(schedBound, r.actors["cs"], r.actors["cs2"]) {
+			res.StallA = fmt.Sprintf("the handler has returned, yet the client's sends (nobody receiving, no CloseSend since) are still blocked after %v\n%s", schedBound, goroutineDump())
+		}
+		r.actors["cr"].releaseAll(drain...)
 		r.mu.Lock()
 		closedAlready := r.clientClosed
 		r.mu.Unlock()
@@ -293,7 +306,17 @@ func propC05(c c05Case) *Outcome {
 		}
 	}
 	c05Serial.Lock()
-	res := runSchedule(c.Carrier, c.Kind, c.Steps, true)
+	var co carrierOpts
+	if c.BadReplyHeader && isHTTP(c.Carrier) {
+		o.class("undecodable-reply-metadata")
+		co.WrapHandler = func(h http.Handler) http.Handler {
+			return http.HandlerFunc(func(w http.ResponseWriter, r *http.Request) {
+				w.Header().Set("X-Trace-Bin", "abc") // not padded URL-safe base64
+				h.ServeHTTP(w, r)
+			})
+		}
+	}
+	res := runSchedule(c.Carrier, c.Kind, c.Steps, true, co)
 	c05Serial.Unlock()
 	obs := map[string]interface{}{"events": res.Events, "handler_status": res.HandlerStatus, "sent_by_handler": res.SentByHandler, "sent_by_client": res.SentByClient}
 	o.Observed = obs
@@ -370,9 +393,11 @@ func propC05(c c05Case) *Outcome {
 		if e.Step.Actor == "cs2" {
 			evKey = "cs/" + e.Step.Op
 		}
+		badHdr := c.BadReplyHeader && isHTTP(c.Carrier)
 		switch evKey {
 		case "cs/send":
-			if e.ClientClosed || cardAny {
+			if e.ClientClosed || cardAny || badHdr {
+				// badHdr: the client fails the call by itself once the undecodable reply headers arrive
 				// send after our own CloseSend: any error. cardAny: the client transport ends the
 				// call by itself at some point of this run (surplus response); a send racing
 				// with that may see the cancellation before the receive that caused it returns
@@ -395,6 +420,9 @@ func propC05(c c05Case) *Outcome {
 				recvd = append(recvd, e.MsgTag)
 				break
 			}
+			if badHdr {
+				break
+			}
 			if !e.HandlerReturned && !(!serverStreaming(c.Kind) && e.ErrKind == "status:13") {
 				return o.failf("%s/%s: RecvMsg failed with %s while the handler was still running and nobody cancelled", c.Carrier, c.Kind, e.Err)
 			}
@@ -404,7 +432,7 @@ func propC05(c c05Case) *Outcome {
 				return o.failf("%s/%s: final status changed between RecvMsg calls: %s then %s", c.Carrier, c.Kind, finalSeen, e.ErrKind)
 			}
 		case "cr/header":
-			if e.ErrKind != "nil" && !e.HandlerReturned {
+			if e.ErrKind != "nil" && !e.HandlerReturned && !badHdr {
 				return o.failf("%s/%s: Header() failed with %s while the handler was still running", c.Carrier, c.Kind, e.Err)
 			}
 		case "cs/close":
@@ -412,6 +440,9 @@ func propC05(c c05Case) *Outcome {
 				return o.failf("%s/%s: CloseSend returned %s", c.Carrier, c.Kind, e.Err)
 			}
 		}
+	}
+	if c.BadReplyHeader && isHTTP(c.Carrier) {
+		return o // the call fails on the client (reply metadata undecodable): only termination, panics and leaks are judged
 	}
 	if !cancelInScript {
 		// delivered responses: an intact prefix of what the handler sent, complete at the end
@@ -556,6 +587,7 @@ func genStepsFor(t *rapid.T, kind string, allowCancel bool, maxSteps int, second
 func genC05(t *rapid.T) c05Case {
 	c := c05Case{Carrier: rapid.SampledFrom([]string{cInproc, cInproc, cHTTP, cHTTPMux}).Draw(t, "carrier"), Kind: rapid.SampledFrom([]string{kClientStream, kServerStream, kBidi, kBidi}).Draw(t, "kind")}
 	c.Steps = genStepsFor(t, c.Kind, true, 14, c.Carrier == cInproc && rapid.Bool().Draw(t, "h2"))
+	c.BadReplyHeader = isHTTP(c.Carrier) && rapid.IntRange(0, 9).Draw(t, "badhdr") == 0
 	return c
 }
 
